@@ -847,9 +847,17 @@ fn main() {
 
     // ---- round 2: reductions of unknown failures / disagreements, compiled once -----------------
     if !failing.is_empty() || !disagreeing.is_empty() {
-        let mut origins: Vec<usize> = failing.iter().chain(disagreeing.iter()).copied().collect::<BTreeSet<_>>().into_iter().collect();
-        origins.sort_by_key(|&i| cases[i].encode().len());
-        origins.truncate(6);
+        // origins to reduce: the smallest oracle failures first, then the smallest disagreements
+        let mut f_sorted = failing.clone();
+        f_sorted.sort_by_key(|&i| cases[i].encode().len());
+        let mut d_sorted = disagreeing.clone();
+        d_sorted.sort_by_key(|&i| cases[i].encode().len());
+        let mut origins: Vec<usize> = vec![];
+        for &i in f_sorted.iter().take(4).chain(d_sorted.iter()) {
+            if origins.len() < 6 && !origins.contains(&i) {
+                origins.push(i);
+            }
+        }
         let mut red: Vec<Def> = vec![];
         let mut owner: Vec<usize> = vec![];
         for &o in &origins {
@@ -869,6 +877,8 @@ fn main() {
         }
         rep.search_cases = red_out.len() as u64;
         rep.search_found = red_out.iter().any(|o| o.verdict.as_ref().map(|v| v.key != KNOWN_KEY).unwrap_or(false));
+        // (key, case, impl, what), smallest case first: `./check` takes the first one per key as the witness
+        let mut found: Vec<(String, String, String, String)> = vec![];
         for &i in &failing {
             let v = outcomes[i].verdict.as_ref().unwrap();
             // smallest reduction of this origin failing under the same key
@@ -878,21 +888,21 @@ fn main() {
                 .filter(|(j, o)| owner[*j] == i && o.verdict.as_ref().map(|w| w.key == v.key).unwrap_or(false))
                 .min_by_key(|(j, _)| red[*j].encode().len());
             match best {
-                Some((j, o)) => rep.oracle_failure(&v.key, &red[j].encode(), &o.raw, &o.verdict.as_ref().unwrap().what),
-                None => rep.oracle_failure(&v.key, &cases[i].encode(), &outcomes[i].raw, &v.what),
+                Some((j, o)) => found.push((v.key.clone(), red[j].encode(), o.raw.clone(), o.verdict.as_ref().unwrap().what.clone())),
+                None => found.push((v.key.clone(), cases[i].encode(), outcomes[i].raw.clone(), v.what.clone())),
             }
         }
         // unknown failures found only among the reductions / neighbours
-        if failing.is_empty() {
-            if let Some((j, o)) = red_out
-                .iter()
-                .enumerate()
-                .filter(|(_, o)| o.verdict.as_ref().map(|v| v.key != KNOWN_KEY).unwrap_or(false))
-                .min_by_key(|(j, _)| red[*j].encode().len())
-            {
-                let v = o.verdict.as_ref().unwrap();
-                rep.oracle_failure(&v.key, &red[j].encode(), &o.raw, &v.what);
+        for (j, o) in red_out.iter().enumerate() {
+            if let Some(v) = &o.verdict {
+                if v.key != KNOWN_KEY && !found.iter().any(|f| f.0 == v.key) {
+                    found.push((v.key.clone(), red[j].encode(), o.raw.clone(), v.what.clone()));
+                }
             }
+        }
+        found.sort_by_key(|f| f.1.len());
+        for (key, case, imp, what) in &found {
+            rep.oracle_failure(key, case, imp, what);
         }
         for &i in &disagreeing {
             let best = red_out
